@@ -31,8 +31,10 @@ RULE = ('A case is an interpreted op list over {finalize; unlock_config block wi
         '%gin.REQUIRED and the other bound to constant/literal/reference/macro in either order); '
         'register a new configurable (configurable / '
         'register / external_configurable; a new name, or -- inside interactive mode only -- an '
-        'existing name with a different function); an interactive_mode() block with a nested op '
-        'list as body; finalize optionally called inside an active config_scope; clear_config; '
+        'existing name with a different function, or -- while locked only -- a class carrying a '
+        'method registered earlier with @gin.register / a plain class); an interactive_mode() block with a nested op '
+        'list as body; finalize optionally called inside an active config_scope and/or through '
+        'parse_config_files_and_bindings; clear_config; '
         'register a finalize hook in {returns '
         'None, returns {}, returns a binding, returns the parameter of an earlier hook under a '
         'different spelling, returns an invalid binding, raises}}. Operands are small ints taken '
@@ -85,6 +87,13 @@ ASSUMPTIONS = [
     'identical object) and nothing else about the lock may change; re-registration of an '
     'existing name is attempted only inside interactive mode, and while unlocked only a lock '
     'error from it is a violation (whether it succeeds is not C12)',
+    'a class registration is attempted only while locked (a successful one renames the methods '
+    'registered on the class -- documented behaviour, not C12); after the refusal the method '
+    'c12_probes.mth must resolve by both old spellings to the identical object and keep its '
+    'bindings, nm.Net / Net.mth must be unknown, and vars(cls) must hold the identical objects',
+    'additionally asserted although it is C09/C16 territory (it cannot fail on a tree where C12 '
+    'holds): gin.current_scope() right after every finalize, accepted or rejected, and after '
+    'leaving the surrounding config_scope block, equals what it was before',
     'what finalize accepts or rejects does not depend on an active config scope '
     '(`with gin.config_scope("zs"): gin.finalize()`); the scope zs is used by no binding',
     'the config argument handed to a hook is a mapping (scope, selector) -> {parameter: value} '
@@ -115,6 +124,8 @@ FLOORS = {
     'hyp:locked:register-rejected': (0.05, 'gen:hyp'),
     'hyp:locked:register-interactive-rejected': (0.01, 'gen:hyp'),
     'hyp:finalize:inside-config-scope': (0.05, 'gen:hyp'),
+    'hyp:finalize:rejected-inside-config-scope': (0.05, 'gen:hyp'),
+    'hyp:locked:register-class-rejected': (0.01, 'gen:hyp'),
     'hyp:finalize:required-after-other-constant-in-section': (0.01, 'gen:hyp'),
 }
 TECHNIQUE = ('model-based property testing: operation histories (bounded exhaustive sweep + '
@@ -130,14 +141,15 @@ LEVEL_TEXT = ('Every sequence of length <=3 (quick) / <=4 (thorough) over a 23-o
               'sweep bound.')
 LEVEL_NOTE = ('Trusted: the ~150-line reference model; query_parameter/config_str/'
               'config_is_locked as observers (a defect that corrupts a binding outside the '
-              'universe {"", s} x {pm.f, pm.g, nm.n0..n2} x {a, b} + macros M0, M1 and also hides '
+              'universe {"", s} x {pm.f, pm.g, c12_probes.mth, nm.n0..n2} x {a, b} + macros M0, M1 and also hides '
               'it from config_str is not seen). Single-threaded only; generator-based exits '
               '(GeneratorExit) and exceptions raised by unlock_config itself are not generated.')
 
 SCOPES = ['', 's']
 PARAMS = ['a', 'b']
 MACROS = ['M0', 'M1']
-BASE = ['pm.f', 'pm.g']
+METHOD = 'c12_probes.mth'       # Net.mth, registered with a bare @gin.register; Net itself never is
+BASE = ['pm.f', 'pm.g', METHOD]
 NEW = ['nm.n0', 'nm.n1', 'nm.n2']
 MACRO_SEL = 'gin.macro'
 
@@ -152,6 +164,15 @@ def n1(a=0, b=0):
   return ('n1', a, b)
 def n2(a=0, b=0):
   return ('n2', a, b)
+class Net:
+  def __init__(self, a=0, b=0):
+    self.ab = (a, b)
+  @gin.register
+  def mth(self, a=0, b=0):
+    return ('mth', a, b)
+class Late:
+  def __init__(self, a=0, b=0):
+    self.ab = (a, b)
 def make_alt(name, k):
   def alt(a=0, b=0):
     return (name + '#' + str(k), a, b)
@@ -202,6 +223,7 @@ class _Run:
   def __init__(self):
     mod = types.ModuleType('c12_probes')
     sys.modules['c12_probes'] = mod
+    mod.gin = gin
     exec(PROBE_SRC, mod.__dict__)  # pylint: disable=exec-used
     self.mod = mod
     gin.configurable('f', module='pm')(mod.f)
@@ -311,7 +333,13 @@ class _Run:
       raise Violation(f'locked:{what}:did-not-raise',
                       f'config is locked, {what} returned normally '
                       f'(config_str changed: {self_changed})')
-    require(gin.config_str() == before, f'locked:{what}:config-changed',
+    try:
+      after = gin.config_str()
+    except Exception as e:  # pylint: disable=broad-except
+      raise Violation(f'locked:{what}:config-str-broken',
+                      f'the call raised, and now config_str() fails: {type(e).__name__}: '
+                      f'{str(e)[:160]}')
+    require(after == before, f'locked:{what}:config-changed',
             'the call raised but config_str() differs')
     self.observe(f'locked:{what}')
     self.labels.add('locked:mutator-rejected')
@@ -450,11 +478,16 @@ class _Run:
        ['register', api, 1, ci]     an existing name with a different function (only attempted in
                                     interactive mode, where it is a well-formed request)"""
     api = op[1] % 3
-    rereg = len(op) > 2 and op[2] % 2 == 1
+    kind = op[2] % 4 if len(op) > 2 else 0
+    if kind >= 2:
+      self.op_register_class(api, kind)
+      return
+    rereg = kind == 1
     if rereg:
       if not self.interactive:
         return
-      full = self.registry[op[3] % len(self.registry)]
+      candidates = [n for n in self.registry if n != METHOD]
+      full = candidates[op[3] % len(candidates)]
       module, name = full.split('.')
       self.alt_count += 1
       fn = self.mod.make_alt(name, self.alt_count)
@@ -507,6 +540,51 @@ class _Run:
     if self.interactive:
       self.labels.add('register:ok-interactive')
     self.observe('register')
+
+  def op_register_class(self, api, kind):
+    """['register', api, 2]  class Net, which carries the registered method c12_probes.mth
+       ['register', api, 3]  class Late (no registered method)
+    Attempted only while locked (a successful class registration renames the method, which is
+    documented behaviour outside C12): must raise RuntimeError and change nothing -- the method
+    still resolves, by its old selector, to the identical object and keeps its bindings, the
+    class name stays unknown, the class object is untouched."""
+    if not self.locked:
+      return
+    cls = self.mod.Net if kind == 2 else self.mod.Late
+    name, module = cls.__name__, 'nm'
+    if api == 0:
+      do = lambda: gin.configurable(name, module=module)(cls)
+    elif api == 1:
+      do = lambda: gin.register(name, module=module)(cls)
+    else:
+      do = lambda: gin.external_configurable(cls, name=name, module=module)
+    self.mutation_attempt()
+    what = 'register-class' + ('-interactive' if self.interactive else '')
+    attrs = dict(vars(cls))
+    init = cls.__init__
+    method = gin.get_configurable(METHOD)
+    self.expect_locked(do, what)      # RuntimeError, config_str and every binding unchanged
+    self.labels.add('locked:register-rejected')
+    self.labels.add('locked:register-class-rejected')
+    now = dict(vars(cls))
+    changed = sorted(k for k in set(now) | set(attrs) if now.get(k) is not attrs.get(k))
+    require(not changed and cls.__init__ is init, f'locked:{what}:class-object-modified',
+            lambda: f'{cls.__name__}: attributes changed by the rejected registration: {changed}')
+    for sel in self.selectors(METHOD):
+      try:
+        still = gin.get_configurable(sel)
+      except ValueError as e:
+        raise Violation(f'locked:{what}:registered-method-lost',
+                        f'{sel} no longer resolves after the rejected registration of '
+                        f'{cls.__name__}: {str(e)[:120]}')
+      require(still is method, f'locked:{what}:registered-method-replaced', sel)
+    for bad in (f'{module}.{name}', f'{module}.{name}.mth', f'{name}.mth'):
+      try:
+        gin.get_configurable(bad)
+      except ValueError:
+        continue
+      raise Violation(f'locked:{what}:configurable-was-added',
+                      f'registration raised but get_configurable finds {bad}')
 
   def op_clear(self, op):
     if self.locked:
@@ -588,18 +666,49 @@ class _Run:
     return causes
 
   def op_finalize(self, op=('finalize',)):
-    scoped = len(op) > 1 and op[1] % 2 == 1
+    variant = op[1] % 4 if len(op) > 1 else 0
+    scoped, via_files = bool(variant & 1), bool(variant & 2)
     if scoped:
       # what finalize accepts or rejects must not depend on an active config scope
       self.labels.add('finalize:inside-config-scope')
+    if via_files:
+      self.labels.add('finalize:via-parse_config_files_and_bindings')
+    seen = {}
 
-      def do_finalize():
-        with gin.config_scope('zs'):
-          gin.finalize()
-    else:
-      do_finalize = gin.finalize
+    def call():
+      if via_files:
+        gin.parse_config_files_and_bindings([], None, finalize_config=True)
+      else:
+        gin.finalize()
+
+    def do_finalize():
+      outer = gin.current_scope()
+      try:
+        if scoped:
+          with gin.config_scope('zs'):
+            inner = gin.current_scope()
+            try:
+              call()
+            finally:
+              seen['inside'] = (inner, gin.current_scope())
+        else:
+          try:
+            call()
+          finally:
+            seen['inside'] = (outer, gin.current_scope())
+      finally:
+        seen['outside'] = (outer, gin.current_scope())
+
+    def check_caller_scope():
+      # Not a C12 clause proper (it is C09/C16 territory) but free to observe here: finalize,
+      # accepted or rejected, must hand the caller's active config scope back as it found it.
+      for where, (was, now) in sorted(seen.items()):
+        require(list(was) == list(now), 'finalize:caller-config-scope-changed',
+                lambda: f'current_scope() {where} the block: {was} before finalize, {now} after')
+
     if self.locked:
       self.expect_locked(do_finalize, 'finalize-twice')
+      check_caller_scope()
       self.labels.add('finalize:twice')
       return
     pre = self.model_snapshot()
@@ -612,6 +721,7 @@ class _Run:
       do_finalize()
     except Exception as e:  # pylint: disable=broad-except
       raised = e
+    check_caller_scope()
     for i, h in enumerate(self.hooks):
       for snap in h['calls']:
         require(snap == pre, 'finalize:hook-saw-config-not-as-parsed',
@@ -623,6 +733,8 @@ class _Run:
       require(gin.config_str() == before, 'finalize:rejected-but-config-modified',
               lambda: f'causes {causes}; raised {type(raised).__name__}')
       self.observe('finalize:rejected')   # unlocked, every binding as before
+      if scoped:
+        self.labels.add('finalize:rejected-inside-config-scope')
       for c in causes:
         self.labels.add('finalize:rejected:' + c.split(':')[0])
         self.labels.add('finalize:rejected:' + c.replace(':', '-'))
@@ -800,7 +912,9 @@ def sweep_variants(tier):
         for hook in ([], [['hook', 'bind', 0, 1, 1, 2, 3]]):
           for fix in ([], [['bind', 0, 0, 0, 1, 5]], [['clear', 1]],
                       [['parse', 'macrodef', 0, 0, 0, 0, val]]):
-            for scoped in (0, 1):     # finalize called inside `with gin.config_scope('zs'):`
+            # 1: finalize called inside `with gin.config_scope('zs'):`; 3: there, and through
+            # parse_config_files_and_bindings([], None, finalize_config=True)
+            for scoped in (0, 1, 3):
               add(macros + hook + [bad, ['finalize', scoped]] + fix +
                   [['finalize', scoped], _BIND1])
   # (2b) sections with two parameters: one left at %gin.REQUIRED, the other bound to another
@@ -841,6 +955,8 @@ def sweep_variants(tier):
           for sp in range(4)]
   muts += [['parse', k, 1, 1, 1, sp, 1] for k in ALL_PARSE_KINDS for sp in (0, 1)]
   muts += [['register', api] for api in range(3)]
+  # class targets: Net carries the registered method c12_probes.mth, Late has none
+  muts += [['register', api, k] for api in range(3) for k in (2, 3)]
   for m in muts:
     add([_BIND1, ['finalize'], m, ['unlock', [m], EXIT_NORMAL], m])
     add([['register', 0], ['finalize'], ['clear', 0], m, ['finalize'], m])
@@ -852,6 +968,18 @@ def sweep_variants(tier):
     add([['register', 0], _BIND1, ['finalize'], im, ['unlock', [im], EXIT_NORMAL], im,
          ['clear', 0], im, ['finalize', 1], im])
     add([['interactive', [['finalize'], m, ['unlock', [m], EXIT_RAISE], m]], m])
+  # (6) a rejected registration of a class must leave the method registered on it addressable
+  #     by its old selector, with its bindings, and the class object untouched
+  for api in range(3):
+    for k in (2, 3):
+      for inter in (0, 1):
+        m = ['register', api, k]
+        mm = ['interactive', [m]] if inter else m
+        for sp in range(4):             # how the method's bindings are spelled
+          add([['bind', 0, 2, 0, sp, 3], ['bind', 1, 2, 1, sp, 4], ['finalize'], mm,
+               ['unlock', [['bind', 0, 2, 1, sp, 5], mm], EXIT_NORMAL], ['bind', 0, 2, 0, 0, 6],
+               mm, ['finalize'], ['clear', 0], ['bind', 0, 2, 0, sp, 7], ['finalize', 1], mm,
+               ['unlock', [], EXIT_RAISE], mm])
   return cases, True
 
 
@@ -873,12 +1001,13 @@ def _leaf_ops():
                        _i, _i, _i, _i, _val)
   return [
       (4, st.tuples(st.just('finalize'))),
-      (1, st.tuples(st.just('finalize'), st.just(1))),
+      (1, st.tuples(st.just('finalize'), st.sampled_from([1, 1, 2, 3]))),
       (3, bind),
       (2, good_parse),
       (2, bad_parse),
       (2, st.tuples(st.just('register'), st.integers(0, 2))),
       (1, st.tuples(st.just('register'), st.integers(0, 2), st.just(1), _i)),
+      (1, st.tuples(st.just('register'), st.integers(0, 2), st.sampled_from([2, 3]))),
       (1, st.tuples(st.just('clear'), st.integers(0, 1))),
       (2, good_hook),
       (1, bad_hook),
@@ -939,7 +1068,7 @@ def _scenario(draw):
   ops.append(['unlock', body, exit_kind])
   if draw(st.booleans()):
     # interactive mode is not a way out of the restored lock
-    reg = ['register', draw(st.integers(0, 2))] + draw(st.sampled_from([[], [1, 0], [1, 1]]))
+    reg = ['register', draw(st.integers(0, 2))] + draw(st.sampled_from([[], [1, 0], [1, 1], [2], [3]]))
     ops.append(['interactive', [reg]])
   ops += draw(st.lists(_ops(0), min_size=1, max_size=5))
   return ops
@@ -958,7 +1087,7 @@ def _reject_scenario(draw):
   # weights; one_of silently drops duplicate branches)
   causes = ['macroref', 'macroref_nested', 'uneval', 'uneval_bound', 'unknown', 'unknown_nested',
             'required', 'pair', 'hidden_required', 'hidden_required', 'dup', 'dup', 'invalid',
-            'raise']
+            'invalid', 'raise', 'raise']
   for _ in range(draw(st.sampled_from([1, 1, 2]))):
     cause = draw(st.sampled_from(causes))
     t = [draw(_i), draw(_i), draw(_i), draw(_i), draw(_val)]
@@ -979,7 +1108,8 @@ def _reject_scenario(draw):
                 ['parse', 'required', t[0], t[1], t[2], t[3], 0]]
     else:
       ops.append(['parse', cause] + t)
-  ops.append(['finalize'])
+  # often rejected inside an active config scope / through parse_config_files_and_bindings
+  ops.append(['finalize', draw(st.sampled_from([0, 0, 1, 1, 3]))])
   ops += draw(st.lists(_ops(0), max_size=5))
   return ops
 
